@@ -296,6 +296,22 @@ def run_cli(ctx):
                                "pty_bytes": hx(data2[:4000]), "piped_output": piped[:2000]})
             if len(violations) >= 3:
                 break
+        # --noout / --csv - on the terminal: cmd/helpers.BuildVTermFromArguments picks the NullTerm – not a single
+        # byte (no cursor sequences) goes to the terminal through the writer (Lean: writer_choice, cli_noout_is_silent)
+        if it == 0 and len(violations) < 3:
+            data3 = _pty_run(cmd[:2] + ["--noout"] + cmd[2:], rows, cols)
+            runs += 1
+            if data3 != b"":
+                violations.append({"key": "cli-noout-writes", "cmd": " ".join(cmd[:2] + ["--noout"] + cmd[2:]),
+                                   "explanation": "--noout on a terminal wrote %d bytes, expected none" % len(data3), "pty_bytes": hx(data3[:2000])})
+            csvcmd = cmd[:2] + ["--csv", "-"] + cmd[2:]
+            craw, cst = _bounded(csvcmd, timeout=60)
+            data4 = _pty_run(csvcmd, rows, cols)
+            runs += 1
+            if cst != "ok" or b"\x1b" in data4 or data4.replace(b"\r\n", b"\n") != craw:
+                violations.append({"key": "cli-csv-dash-differs", "cmd": " ".join(csvcmd),
+                                   "explanation": "--csv - on a terminal: expected exactly the csv (no cursor sequences), the same as piped",
+                                   "pty_bytes": hx(data4[:2000]), "piped_output": craw[:2000].decode("utf-8", "replace")})
     # the terminal is shorter than the block of lines (known finding: the writer does not know the height)
     path = os.path.join(work, "short.log")
     chunk1 = "".join("key%d %d\n" % (i % 7, i) for i in range(200)).encode()
